@@ -433,6 +433,9 @@ func rlValidateDriver(raw json.RawMessage) *Out {
 	if c.Opts.EnumNums {
 		out.Key += "|enumNums"
 	}
+	if c.Opts.ZeroPrefixed {
+		out.Key += "|zeroPrefixed"
+	}
 	fam := rlFamily(d.Kind)
 	where := d.Card + ":" + d.Kind
 	msgs, _, text, err := rlCompile([]rlUnit{{Msg: "Subject", Decl: d}}, c.Opts)
